@@ -575,8 +575,12 @@ bool CanettiGennaroJareckiKrawczykRabinRVSS::Share
 		complaints_counter.clear(), complaints_from.clear(); // reset for final complaint resolution
 		for (size_t j = 0; j < n; j++)
 			complaints_counter.push_back(0); // initialize counter
+		std::vector< std::vector<size_t> > unanswered(n); // complaints of Step 1(b) not yet answered in Step 1(c)
 		for (std::vector<size_t>::iterator jt = complaints.begin(); jt != complaints.end(); ++jt)
+		{
 			complaints_counter[dkg2idx[*jt]]++; // count my own complaints
+			unanswered[dkg2idx[*jt]].push_back(i);
+		}
 		complaints.clear();
 		for (size_t j = 0; j < n; j++)
 		{
@@ -598,6 +602,7 @@ bool CanettiGennaroJareckiKrawczykRabinRVSS::Share
 					{
 						err << "RVSS(" << label << "): P_" << idx2dkg[i] << ": receiving complaint against P_" << idx2dkg[who] << " from P_" << idx2dkg[j] << std::endl;
 						complaints_counter[who]++;
+						unanswered[who].push_back(j);
 						dup.insert(std::pair<size_t, bool>(who, true)); // mark as counted for $P_j$
 						if (who == i)
 							complaints_from.push_back(idx2dkg[j]); // remember where the complaints are from
@@ -653,6 +658,7 @@ bool CanettiGennaroJareckiKrawczykRabinRVSS::Share
 					size_t who = mpz_get_ui(lhs);
 					if (who >= n)
 						break; // end marker received
+					unanswered[j].erase(std::remove(unanswered[j].begin(), unanswered[j].end(), who), unanswered[j].end());
 					if (!rbc->DeliverFrom(foo, j))
 					{
 						err << "RVSS(" << label << "): P_" << idx2dkg[i] << ": receiving foo failed; complaint against P_" << idx2dkg[j] << std::endl;
@@ -713,6 +719,11 @@ bool CanettiGennaroJareckiKrawczykRabinRVSS::Share
 					cnt++;
 				}
 				while (cnt <= n);
+				if (!unanswered[j].empty())
+				{
+					err << "RVSS(" << label << "): P_" << idx2dkg[i] << ": complaint not answered in step 1c; complaint against P_" << idx2dkg[j] << std::endl;
+					complaints.push_back(idx2dkg[j]);
+				}
 			}
 		}
 		QUAL.clear();
@@ -1511,8 +1522,12 @@ bool CanettiGennaroJareckiKrawczykRabinZVSS::Share
 		complaints_counter.clear(), complaints_from.clear(); // reset for final complaint resolution
 		for (size_t j = 0; j < n; j++)
 			complaints_counter.push_back(0); // initialize counter
+		std::vector< std::vector<size_t> > unanswered(n); // complaints of Step 1(b) not yet answered in Step 1(c)
 		for (std::vector<size_t>::iterator it = complaints.begin(); it != complaints.end(); ++it)
+		{
 			complaints_counter[dkg2idx[*it]]++; // count my own complaints
+			unanswered[dkg2idx[*it]].push_back(i);
+		}
 		complaints.clear();
 		for (size_t j = 0; j < n; j++)
 		{
@@ -1534,6 +1549,7 @@ bool CanettiGennaroJareckiKrawczykRabinZVSS::Share
 					{
 						err << "ZVSS(" << label << "): P_" << idx2dkg[i] << ": receiving complaint against P_" << idx2dkg[who] << " from P_" << idx2dkg[j] << std::endl;
 						complaints_counter[who]++;
+						unanswered[who].push_back(j);
 						dup.insert(std::pair<size_t, bool>(who, true)); // mark as counted for $P_j$
 						if (who == i)
 							complaints_from.push_back(idx2dkg[j]);
@@ -1590,6 +1606,7 @@ bool CanettiGennaroJareckiKrawczykRabinZVSS::Share
 					size_t who = mpz_get_ui(lhs);
 					if (who >= n)
 						break; // end marker received
+					unanswered[j].erase(std::remove(unanswered[j].begin(), unanswered[j].end(), who), unanswered[j].end());
 					if (!rbc->DeliverFrom(foo, j))
 					{
 						err << "ZVSS(" << label << "): P_" << idx2dkg[i] << ": receiving foo failed; complaint against P_" << idx2dkg[j] << std::endl;
@@ -1650,6 +1667,11 @@ bool CanettiGennaroJareckiKrawczykRabinZVSS::Share
 					cnt++;
 				}
 				while (cnt <= n);
+				if (!unanswered[j].empty())
+				{
+					err << "ZVSS(" << label << "): P_" << idx2dkg[i] << ": complaint not answered in step 1c; complaint against P_" << idx2dkg[j] << std::endl;
+					complaints.push_back(idx2dkg[j]);
+				}
 			}
 		}
 		QUAL.clear();
